@@ -219,6 +219,27 @@ pub fn handle(args: &[&str]) -> Option<String> {
                 .collect();
             Some(res.join(","))
         }
+        // the library's comparison functions called by parameter names (spec: a named argument binds the
+        // parameter of that name): same nine-slot layout as `all`, unused slots answer `-`
+        ["named", a, b] => {
+            let a = render(a)?;
+            let b = render(b)?;
+            let o = crate::ops_eval::EvalOpts::parse(&[])?;
+            let progs = [
+                format!("std.equals(b={}, a={})", b, a),
+                format!("std.equals({}, b={})", a, b),
+                format!("std.__compare(v2={}, v1={})", b, a),
+                format!("std.__compare({}, v2={})", a, b),
+                format!("std.__compare_array(arr2={}, arr1={})", b, a),
+                format!("std.primitiveEquals(b={}, a={})", b, a),
+                format!("std.primitiveEquals({}, {})", a, b),
+            ];
+            let res: Vec<String> = progs
+                .iter()
+                .map(|p| canon(&crate::ops_eval::eval_source(p.as_bytes(), &o)))
+                .collect();
+            Some(res.join(","))
+        }
         _ => None,
     }
 }
